@@ -127,7 +127,9 @@ impl World {
         let l1 = issuer::update_revocation_status_list(&cds[1].cred_def, &reg.def, &reg.def_priv, &l0, None, Some(BTreeSet::from([2u32])), Some(200)).unwrap();
         let l2 = issuer::update_revocation_status_list(&cds[1].cred_def, &reg.def, &reg.def_priv, &l1, None, Some(BTreeSet::from([1u32])), Some(300)).unwrap();
         let mut classes: Classes<anoncreds::cl::Accumulator> = Classes::new();
-        let lists: Vec<ListInfo> = vec![(100u64, l0, vec![]), (200, l1, vec![2u32]), (300, l2, vec![1, 2])]
+        // a fourth list stamped 0 (the state of t=100 published again at the epoch): 0 is a timestamp like any other
+        let l3 = issuer::update_revocation_status_list_timestamp_only(0, &l0);
+        let lists: Vec<ListInfo> = vec![(100u64, l0, vec![]), (200, l1, vec![2u32]), (300, l2, vec![1, 2]), (0, l3, vec![])]
             .into_iter()
             .map(|(ts, list, rv)| {
                 let acc_class = classes.class_of(world::list_accum(&list).unwrap());
